@@ -54,6 +54,17 @@ func genC03(t *rapid.T) hsConfig {
 
 func runC03(c hsConfig) (violation string) {
 	p := newHSPair(c)
+	if c.Pattern == "XX" && !secretsMatch(c) && c.Seed%2 == 0 {
+		// a node hosts many sessions: each of the two (different)
+		// passphrases has already paired a session of its own in this
+		// process when the mismatching attempt is made
+		for i, pass := range [][]byte{p.passI, p.passR} {
+			pc := hsConfig{Pattern: "XX", IMin: 0, IMax: 2, RMin: 0, RMax: 2, Seed: c.Seed + uint64(i) + 1, AuthLen: 16, PassMode: "same", passOverride: pass}
+			if _, err := established(pc); err != nil {
+				return "an earlier pairing with one of the two passphrases failed: " + err.Error()
+			}
+		}
+	}
 	p.run()
 	if isPanic(p.I.err) || isPanic(p.R.err) {
 		return fmt.Sprintf("panic during handshake: initiator %v, responder %v", p.I.err, p.R.err)
